@@ -230,6 +230,18 @@ def vertex_contributions(case, obs, v):
     return out
 
 
+def _tiny_solved(obs, rel=1e-6):
+    """elements whose first-solve value is numerically zero (relative to the largest solved value)"""
+    out = set()
+    if "solve" in obs and obs["solve"]["x"]:
+        x = np.abs(np.array([complex(a, b) for a, b in obs["solve"]["x"]]))
+        mx = max(1e-300, float(x.max()))
+        for k, i in enumerate(obs["free"]):
+            if x[k] < rel * max(1.0, mx):
+                out.add(i)
+    return out
+
+
 def compare_runs(case, obs, case2, obs2, vperm, fperm):
     """The two runs (same surface, renumbered vertices / rotated faces / shuffled face list), measured against the mesh's
     own geometry.  Returns None or (class_key, message)."""
@@ -260,6 +272,9 @@ def compare_runs(case, obs, case2, obs2, vperm, fperm):
             return key, ("after renumbering the vertices / rotating the faces the constraint of face %d (%d feature edges) points in "
                          "different directions (difference %.3g, order %d)" % (at0, len(ffe[at0]), worst0, order))
         if worst > TOLM:
+            if at in _tiny_solved(obs) or fperm[at] in _tiny_solved(obs2):
+                return "unit/zero-solution", ("the solved value at face %d is numerically zero (just above the 1e-10 threshold): its "
+                                              "normalised direction is round-off noise and differs between numberings" % at)
             return "gauge/numbering", ("after renumbering the vertices / rotating the faces the frame of face %d differs by %.3g "
                                        "although all constraints agree (order %d)" % (at, worst, order))
         return None
@@ -282,10 +297,30 @@ def compare_runs(case, obs, case2, obs2, vperm, fperm):
     if worst0 > TOLM:
         cs = vertex_contributions(case, obs, at0)
         conflict = len(cs) >= 2 and max(abs(a - b) for a in cs for b in cs) > 1e-6
-        key = "gauge/conflicting-vertex-constraints" if conflict else "gauge/constraint"
-        return key, ("after renumbering the constraint of vertex %d differs by %.3g (its %d feature edges ask for %s representation "
-                     "vectors, order %d)" % (at0, worst0, len(cs), "conflicting" if conflict else "equal", order))
+        if conflict:
+            return "gauge/conflicting-vertex-constraints", (
+                "after renumbering the constraint of vertex %d differs by %.3g (its %d feature edges ask for conflicting "
+                "representation vectors, order %d)" % (at0, worst0, len(cs), order))
+        # the constraint the connection's own (intrinsic, rescaled) edge angles ask for
+        def intrinsic(o, tt, v):
+            acc = 0
+            for e in o["feat"]:
+                A, B = o["edges"][e]
+                if v in (A, B):
+                    acc += tt[(v, B if v == A else A)] ** order
+            return acc / abs(acc) if abs(acc) > 1e-8 else acc
+        mis = max(abs(z1[at0] - intrinsic(obs, t1, at0)), abs(z2[vperm[at0]] - intrinsic(obs2, t2, vperm[at0])))
+        if order % 2 == 0 and case.get("smooth_normals", True) and mis > TOLM:
+            return "gauge/vertex-constraint-projection", (
+                "after renumbering the constraint of vertex %d differs by %.3g: it is built from the extrinsic projection of the "
+                "feature edge on the vertex basis, which is off the connection's own angle of that edge by %.3g (order %d)"
+                % (at0, worst0, mis, order))
+        return "gauge/constraint", ("after renumbering the constraint of vertex %d differs by %.3g (its %d feature edges ask for "
+                                    "equal representation vectors, order %d)" % (at0, worst0, len(cs), order))
     if worst > TOLM:
+        if at in _tiny_solved(obs) or vperm[at] in _tiny_solved(obs2):
+            return "unit/zero-solution", ("the solved value at vertex %d is numerically zero (just above the 1e-10 threshold): its "
+                                          "normalised direction is round-off noise and differs between numberings" % at)
         return "gauge/numbering", ("after renumbering the frame of vertex %d differs by %.3g although all constraints agree (order %d)"
                                    % (at, worst, order))
     return None
